@@ -555,3 +555,48 @@ Section StackAll.
   Lemma stack_all_push_all saved s : Forall Q saved -> stack_all Q s -> stack_all Q (s_push_all saved s).
   Proof. intros Hl Hs. apply stack_all_fold_push; [apply Forall_rev|]; assumption. Qed.
 End StackAll.
+
+(* ---- gathered ---- *)
+Theorem stack_ops_commute (f : span -> span) (s : stack) :
+  s_len (map_stack f s) = s_len s /\
+  s_peek (map_stack f s) = option_map f (s_peek s) /\
+  (forall x, s_push (f x) (map_stack f s) = map_stack f (s_push x s)) /\
+  s_pop (map_stack f s) = (option_map f (fst (s_pop s)), map_stack f (snd (s_pop s))) /\
+  s_snapshot (map_stack f s) = map_stack f (s_snapshot s) /\
+  s_clear_snapshot (map_stack f s) = mmap (map_stack f) (s_clear_snapshot s) /\
+  s_restore (map_stack f s) = mmap (map_stack f) (s_restore s) /\
+  (forall x y, s_index (map_stack f s) x y = mmap (map f) (s_index s x y)) /\
+  s_pop_all (map_stack f s) = map_stack f (s_pop_all s) /\
+  (forall saved, s_push_all (map f saved) (map_stack f s) = map_stack f (s_push_all saved s)).
+Proof.
+  split; [apply s_len_map|]. split; [apply s_peek_map|]. split; [intros x; apply s_push_map|].
+  split; [apply s_pop_map|]. split; [apply s_snapshot_map|]. split; [apply s_clear_snapshot_map|].
+  split; [apply s_restore_map|]. split; [intros x y; apply s_index_map|].
+  split; [apply s_pop_all_map|]. intros saved. apply s_push_all_map.
+Qed.
+
+Theorem stack_ops_preserve (Q : span -> Prop) (s : stack) :
+  stack_all Q s ->
+  (forall x, Q x -> stack_all Q (s_push x s)) /\
+  (forall x, s_peek s = Some x -> Q x) /\
+  stack_all Q (snd (s_pop s)) /\
+  (forall x, fst (s_pop s) = Some x -> Q x) /\
+  stack_all Q (s_snapshot s) /\
+  (forall s1, s_clear_snapshot s = MOk s1 -> stack_all Q s1) /\
+  (forall s1, s_restore s = MOk s1 -> stack_all Q s1) /\
+  (forall x y l, s_index s x y = MOk l -> Forall Q l) /\
+  stack_all Q (s_pop_all s) /\
+  (forall saved, Forall Q saved -> stack_all Q (s_push_all saved s)).
+Proof.
+  intros Hs.
+  split; [intros x Hx; apply stack_all_push; assumption|].
+  split; [intros x Hx; eapply stack_all_peek; eassumption|].
+  split; [apply stack_all_pop; assumption|].
+  split; [apply stack_all_pop; assumption|].
+  split; [apply stack_all_snapshot; assumption|].
+  split; [intros s1 H1; eapply stack_all_clear; eassumption|].
+  split; [intros s1 H1; eapply stack_all_restore; eassumption|].
+  split; [intros x y l H1; eapply stack_all_index; eassumption|].
+  split; [apply stack_all_pop_all; assumption|].
+  intros saved Hl. apply stack_all_push_all; assumption.
+Qed.
